@@ -25,6 +25,11 @@ def scenarios(tier):
             # slack that grows with the timeout (deviation nominal_slices of TimedWait.tla) only shows on a
             # second-scale request: one per sliced call in the quick tier too
             scs.append({"call": call, "t_us": 1000000, "where": "co", "src": "grid"})
+    # the wait follows socket I/O of the same coroutine / thread: early resumptions (TimedWait!EarlyWake) must not shorten it
+    for call in ("usleep", "nanosleep", "poll", "select", "cond"):
+        for pre in ("recv_data", "recv_timeout"):
+            for where in (("co", "thread") if call in ("usleep", "nanosleep") else ("co",)):
+                scs.append({"call": call, "t_us": 250000, "where": where, "pre": pre, "src": "after-socket-io"})
     for call, inv in (("nanosleep", "neg_sec"), ("nanosleep", "neg_nsec"), ("nanosleep", "big_nsec"), ("select", "neg_sec"),
                       ("select", "neg_usec"), ("cond", "neg_nsec"), ("cond", "big_nsec")):
         for where in ("thread", "co"):
@@ -35,6 +40,7 @@ def scenarios(tier):
     for i, s in enumerate(scs):
         s["id"] = i + 1
         s.setdefault("invalid", "")
+        s.setdefault("pre", "")
         s.setdefault("long", False)
         s.setdefault("timeout_ms", 8000)
     return scs
@@ -61,7 +67,7 @@ def run(pid, tier):
         return v.finish(cov, assumptions=["order-based: when the first sleeper of a loop wakes, every other sleeping task of that loop must already have "
                                           "entered its sleep (N <= max_size)", "hooked usleep is called through open_coroutine_core::syscall, not through the interposed dylib"])
     mc_runs("TimedWait", [("MC_TimedWait.cfg", None), ("MC_TimedWait_select_us_as_ms.cfg", "NotLate"),
-                          ("MC_TimedWait_nominal_slices.cfg", "NotLate"),
+                          ("MC_TimedWait_nominal_slices.cfg", "NotLate"), ("MC_TimedWait_sleep_no_recheck.cfg", "NeverEarly"),
                           ("MC_TimedWait_select_negative_abort.cfg", "InvalidRejected")], tier, cov)
     scs = scenarios(tier)
     tpath, info = one_round(bindir, scs, wd, "")
@@ -86,7 +92,7 @@ def run(pid, tier):
         sc = byid[sid]
         for x in xs:
             rec = {"clause": x[1], "scenario_id": sid, "trace_index": x[0], "detail": x[3] if len(x) > 3 else None,
-                   "call": sc["call"], "where": sc["where"], "t_us": sc["t_us"], "invalid": sc["invalid"], "driver": "tw", "scenario": sc}
+                   "call": sc["call"], "where": sc["where"], "t_us": sc["t_us"], "invalid": sc["invalid"], "pre": sc.get("pre", ""), "driver": "tw", "scenario": sc}
             if x[1] in TIMING and confirmed.get(sid, 0) < 1:
                 v.note("timing clause %s of scenario %s did not reproduce (1 of 3): not reported" % (x[1], sid))
                 continue
